@@ -17,7 +17,9 @@ RULE = ("(1) every matcher expression of the C06 language (all stock matchers) x
         "combining, NUL, lone surrogates, quotes, backslashes, triple quotes, CR/LF) as matchee and as matcher "
         "argument; (3) ast.literal_eval(text_repr(s, multiline)) == s for all str/bytes and multiline in "
         "{None, True, False}; (4) generated test bodies mixing assertThat / assert_that / expectThat with "
-        "matching and mismatching pairs and detail-carrying mismatches. Non-trivial: non-ASCII or control "
+        "matching and mismatching pairs and detail-carrying mismatches, loops of 11-14 failing expectations with the "
+        "same detail names, endings (skip / expected failure / skip from a cleanup) and the three runners "
+        "(RunTest, SynchronousDeferredRunTest, AsynchronousDeferredRunTest on the real reactor). Non-trivial: non-ASCII or control "
         "characters in the matchee, or a nested tree, or verbose, or >= 2 assertions in a body; distinct = "
         "distinct canonical spec.")
 ASSUMPTIONS = [
@@ -305,7 +307,14 @@ def s_body(draw):
             v = 0
         steps.append({"how": how, "kind": kind, "matcher": m, "value": v, "message": draw(ANNOT),
                       "verbose": draw(st.booleans())})
-    return {"steps": steps, "ending": draw(st.sampled_from(["none", "none", "skip", "xfail", "teardown-skip"])), "user_details": draw(st.lists(st.sampled_from(["foo", "bar", "Failed expectation", "traceback"]), max_size=2, unique=True))}
+    if draw(st.integers(0, 9)) == 0:
+        # a loop of a dozen and more failing expectations carrying the same detail names
+        names = draw(st.lists(st.sampled_from(["foo", "bar", "traceback", "Failed expectation"]), min_size=1, max_size=2, unique=True))
+        burst = [{"how": "expectThat", "kind": "details", "matcher": {"m": "WithDetails", "names": names, "matches": False}, "value": 0,
+                  "message": None, "verbose": False} for _ in range(draw(st.integers(11, 14)))]
+        at = draw(st.integers(0, len(steps)))
+        steps[at:at] = burst
+    return {"runner": draw(st.sampled_from(["default", "default", "default", "sync-deferred", "async-deferred"])), "steps": steps, "ending": draw(st.sampled_from(["none", "none", "skip", "xfail", "teardown-skip"])), "user_details": draw(st.lists(st.sampled_from(["foo", "bar", "Failed expectation", "traceback"]), max_size=2, unique=True))}
 
 
 def run_body(spec):
@@ -348,7 +357,15 @@ def _run_body(spec):
             want = ML.ref(st_["matcher"], st_["value"], env)
         plan.append((st_, matcher, want))
 
+    runner = spec.get("runner", "default")
+
     class T(testtools.TestCase):
+        if runner == "sync-deferred":
+            from testtools.twistedsupport import SynchronousDeferredRunTest as run_tests_with
+        elif runner == "async-deferred":
+            from testtools.twistedsupport import AsynchronousDeferredRunTest
+            run_tests_with = AsynchronousDeferredRunTest.make_factory(timeout=30)
+
         def test_body(self):
             for n in spec["user_details"]:
                 self.addDetail(n, text_content("USER/" + n))
@@ -442,7 +459,7 @@ def _run_body(spec):
             vs.append(V("details", "failed-expectation-count", "%d 'Failed expectation' details for %d failed expectThat; names %r" % (n_fe, n_expect, sorted(texts))))
     nt = len(steps) >= 2 and (any_expect_mismatch or stop is not None)
     return Case(vs, nt, ["expect-mismatch" if any_expect_mismatch else "", "stopped" if stop is not None else "ran-to-end", "ending=" + spec.get("ending", "none"),
-                         "details" if expected_details else ""], {"log": log[:10]})
+                         "details" if expected_details else "", "runner=" + runner, "steps>=12" if len(steps) >= 12 else ""], {"log": log[:10]})
 
 
 # ---------------------------------------------------------------- every public matcher has a str()
